@@ -247,6 +247,13 @@ class ConditionSelector(ConditionItem):
         self.parent = parent
 
         ids = self.resolve_referenced_detections(detections)
+        if len(ids) == 0:
+            # An operator without operands has no truth value: it would silently vanish from the
+            # condition (acting as true below AND and as false below OR).
+            raise SigmaConditionError(
+                f"Selector pattern '{ self.pattern }' doesn't match any detection",
+                source=source,
+            )
         cond = self.cond_class(
             cast(
                 list[
@@ -282,7 +289,7 @@ identifier = Word(identifier_chars)
 identifier.set_parse_action(ConditionIdentifier.from_parsed)
 
 quantifier = Keyword("1") | Keyword("any") | Keyword("all")
-identifier_pattern = Word(alphanums + "*_")
+identifier_pattern = Word(identifier_chars + "*")
 selector = quantifier + Keyword("of") + identifier_pattern
 selector.set_parse_action(ConditionSelector.from_parsed)
 
@@ -338,6 +345,8 @@ class SigmaCondition(ProcessingItemTrackingMixin):
                 return parsed
         except ParseException as e:
             raise SigmaConditionError(str(e), source=self.source)
+        except RecursionError:
+            raise SigmaConditionError("Condition is nested too deeply", source=self.source)
 
     @property
     def parsed(
